@@ -268,6 +268,10 @@ class Engine:
         elif "param" in k:
             name = k["param"]
         elif k.get("pdefs"):
+            lits = [d for d in k["pdefs"] if d.startswith("lit:")]
+            if lits and len(lits) == len(k["pdefs"]):
+                # promoted reference to an array of integer literals: &[1, 2]
+                return Ref(Cell(Obj(adt="array", fields={i: int(d[4:]) for i, d in enumerate(lits)})))
             # promoted reference to a named constant: &CONST
             nm = k["pdefs"][0].rsplit("::", 1)[-1]
             return Ref(Cell(self.named_const(nm, k)))
@@ -733,8 +737,19 @@ def ring_models(extra=None):
         v = ex.deref(args[0])
         return copy.deepcopy(v)
     m.on(by("core::clone::Clone", "clone"), clone)
-    m.on(by("core::borrow::Borrow", "borrow"), lambda ex, st, fr, t, a: a[0])
-    m.on(by("core::convert::AsRef", "as_ref"), lambda ex, st, fr, t, a: a[0])
+    def borrow(ex, st, fr, t, a):
+        # `&T -> &U`: when T is itself a reference, the result is that inner reference
+        r = a[0]
+        if isinstance(r, Ref):
+            loc = ("cell", r.cell)
+            for p in r.projs:
+                loc = ex.step(None, loc, p) if loc else None
+            inner = ex.get(loc)
+            if isinstance(inner, Ref):
+                return inner
+        return r
+    m.on(by("core::borrow::Borrow", "borrow"), borrow)
+    m.on(by("core::convert::AsRef", "as_ref"), borrow)
 
     def unary_ret(fun):
         def h(ex, st, fr, t, args):
@@ -777,6 +792,20 @@ def ring_models(extra=None):
             return False
         return Cond("zero", a)
     m.on(by("Zero", "is_zero"), is_zero)
+
+    def is_one(ex, st, fr, t, args):
+        d = ex.deref(args[0])
+        if structured(d):
+            return NotImplemented
+        a = q_of(d)
+        if a is None:
+            return TOP
+        if a.equals(Q.const(1)):
+            return True
+        if a.is_poly() and a.n.is_const():
+            return False
+        return Cond("eq", a, Q.const(1))
+    m.on(by("One", "is_one"), is_one)
 
     def eq(ex, st, fr, t, args):
         a, b = q_of(ex.deref(args[0])), q_of(ex.deref(args[1]))
